@@ -61,6 +61,9 @@ type Plan struct {
 	// Reuse: the subject is a context object that already evaluated this program unseeded; it is then given
 	// the seed bytes and initialised again ("whatever earlier unseeded evaluations did")
 	Reuse string `json:"reuse,omitempty"`
+	// ReuseSeed: when set, the earlier evaluation on the reused object was itself seeded (with these other
+	// bytes), so the object already owns a generator when it is given the subject's seed and initialised again
+	ReuseSeed string `json:"reuse_seed,omitempty"`
 }
 
 func (p Plan) empty() bool {
@@ -291,11 +294,14 @@ func hostHooks(vm *ds.Context, expr string) {
 	}
 }
 
-func newSubject(cfg vmx.Cfg, log *[]stEvent, reuse string, host string) *ds.Context {
+func newSubject(cfg vmx.Cfg, log *[]stEvent, reuse string, host string, reuseSeed ...string) *ds.Context {
 	vm := cfg.NewVM()
 	if reuse != "" {
 		u := cfg
 		u.SeedHex = ""
+		if len(reuseSeed) > 0 && len(reuseSeed[0]) == 32 {
+			u.SeedHex = reuseSeed[0]
+		}
 		vm = u.NewVM()
 		func() {
 			defer func() { _ = recover() }()
@@ -415,7 +421,7 @@ func runHistory(c Case, plan Plan, probe bool, upto int) runRes {
 		w.do(a)
 	}
 	var log []stEvent
-	vm := newSubject(c.Cfg, &log, plan.Reuse, c.Host)
+	vm := newSubject(c.Cfg, &log, plan.Reuse, c.Host, plan.ReuseSeed)
 	w.subject = vm
 	if plan.Reuse != "" {
 		w.ran++
@@ -736,8 +742,11 @@ func drawPlan(t *rapid.T, nSteps int, dense bool) Plan {
 	for i := rapid.IntRange(0, 2).Draw(t, "nPre"); i > 0; i-- {
 		p.Pre = append(p.Pre, drawAct(t, false))
 	}
-	if rapid.IntRange(0, 7).Draw(t, "reuse") == 0 {
+	if rapid.IntRange(0, 4).Draw(t, "reuse") == 0 {
 		p.Reuse = rapid.SampledFrom(interferencePrograms[:len(interferencePrograms)-1]).Draw(t, "reuseSrc")
+		if rapid.Bool().Draw(t, "reuseSeeded") {
+			p.ReuseSeed = hex.EncodeToString(rapid.SliceOfN(rapid.Byte(), 16, 16).Draw(t, "reuseSeed"))
+		}
 	}
 	for s := 0; s < nSteps; s++ {
 		var sp StepPlan
